@@ -7,7 +7,7 @@ machine of CondLang and compares truth tables over all assignments.
 """
 from __future__ import annotations
 
-from ..common import Check, drive, uncps
+from ..common import Check, drive, replay as _replay, uncps
 
 
 def _dump(node, fieldidx):
@@ -61,7 +61,7 @@ def run(tier: str, seed: int) -> int:
     obs = drive("harness.props.c02", "drive_case", cases)
     verdicts = chk.judge("Judge_C02", obs)
     by_id = {o["id"]: {"names": [uncps(n) for n in o["names"]], "text": uncps(o["text"]), "ret": o["ret"]} for o in obs}
-    chk.absorb(verdicts, by_id)
+    chk.absorb(verdicts, by_id, {c["id"]: c for c in cases})
     texts = {(tuple(map(tuple, c["names"])), tuple(c["text"])) for c in cases}
     nontrivial = sum(1 for (_, t) in texts if t.count(32) + t.count(40) >= 2)
     samples = [by_id[o["id"]] for o in obs[:: max(1, len(obs) // 5)]][:5]
@@ -77,3 +77,7 @@ def run(tier: str, seed: int) -> int:
         traces=len(obs),
         exhaustive=False,
     )
+
+
+def replay(path: str) -> int:
+    return _replay("C02", path, "harness.props.c02", "Judge_C02")
